@@ -94,18 +94,8 @@ func runC18(c *Ctx, r *Report, tier string) {
 		// item
 		item := ""
 		for _, e := range sliceLitElems(call.Call.Args[1]) {
-			if u, ok := e.(*ssa.UnOp); ok {
-				if al, ok := u.X.(*ssa.Alloc); ok {
-					for _, ref := range *al.Referrers() {
-						if fa, ok := ref.(*ssa.FieldAddr); ok && fieldVarName(fieldObj(fa.X.Type(), fa.Field)) == "Item" {
-							for _, r2 := range *fa.Referrers() {
-								if st, ok := r2.(*ssa.Store); ok {
-									item = c.term(st.Val)
-								}
-							}
-						}
-					}
-				}
+			if t, ok := c.literalField(e, "Item", 0); ok {
+				item = t
 			}
 		}
 		want := `("--" + ` + key + `)`
@@ -323,4 +313,46 @@ func runC18(c *Ctx, r *Report, tier string) {
 	)
 	c.runNP(r, "NP", scope, allow)
 	r.Extra["scope"] = c.names(scope)
+}
+
+// literalField: e is a struct literal (a load of a local cell filled field by field), possibly built by a new
+// helper that returns it: the term of the value stored into the named field, rendered in the caller's frame.
+func (c *Ctx) literalField(e ssa.Value, field string, depth int) (string, bool) {
+	if depth > 3 {
+		return "", false
+	}
+	switch x := e.(type) {
+	case *ssa.UnOp:
+		al, ok := x.X.(*ssa.Alloc)
+		if !ok || al.Referrers() == nil {
+			return "", false
+		}
+		for _, ref := range *al.Referrers() {
+			if fa, ok := ref.(*ssa.FieldAddr); ok && fieldVarName(fieldObj(fa.X.Type(), fa.Field)) == field && fa.Referrers() != nil {
+				for _, r2 := range *fa.Referrers() {
+					if st, ok := r2.(*ssa.Store); ok {
+						return c.term(st.Val), true
+					}
+				}
+			}
+		}
+	case *ssa.Call:
+		h := x.Call.StaticCallee()
+		if h == nil || !c.isNew(h) || h.Signature.Results().Len() != 1 {
+			return "", false
+		}
+		rets := returnsOf(h)
+		if len(rets) != 1 {
+			return "", false
+		}
+		for _, f := range c.frames {
+			if f.Common().StaticCallee() == h {
+				return "", false
+			}
+		}
+		c.frames = append(c.frames, x)
+		defer func() { c.frames = c.frames[:len(c.frames)-1] }()
+		return c.literalField(rets[0].Results[0], field, depth+1)
+	}
+	return "", false
 }
